@@ -25,7 +25,7 @@ fn main() {
             let sends = (0..5).map(|i| SendSpec { ch: i, mode: 3, size: 100 }).collect();
             ticks.push(Tick { dt_us: 20_000, acts: [EpAct { step: true, sends, flushes: 1 }, EpAct { step: true, sends: vec![], flushes: 1 }] });
         }
-        PairScenario { dirs: [dir.clone(), dir], keepalive_ms: Some(5000), seed: 1, zero_ch: 0, zero_mode: 1, links: [LinkCfg { latency_us: 10_000, fates: vec![] }, LinkCfg { latency_us: 10_000, fates: vec![] }], ticks, tail: None }
+        PairScenario { dirs: [dir.clone(), dir], keepalive_ms: Some(5000), seed: 1, zero_ch: 0, zero_mode: 1, links: [LinkCfg { latency_us: 10_000, fates: vec![] }, LinkCfg { latency_us: 10_000, fates: vec![] }], ticks, tail: None, premature_acks: Vec::new() }
     };
     let mut sc = sc;
     sc.normalize();
